@@ -64,6 +64,9 @@ use std::sync::atomic::{AtomicUsize, Ordering};
 static CL_SENT: AtomicUsize = AtomicUsize::new(0);
 static CL_DONE: AtomicUsize = AtomicUsize::new(0);
 static CL_EXIT: AtomicUsize = AtomicUsize::new(0);
+static AS_SENT: AtomicUsize = AtomicUsize::new(0);
+static AS_DONE: AtomicUsize = AtomicUsize::new(0);
+static AS_EXIT: AtomicUsize = AtomicUsize::new(0);
 pub fn install_sched() {
     vh::set_sched_handler(Some(Box::new(|name: &'static str| match name {
         "cleanup_send" => {
@@ -75,9 +78,33 @@ pub fn install_sched() {
         "cleanup_exit" => {
             CL_EXIT.fetch_add(1, Ordering::SeqCst);
         }
+        "async_send" => {
+            AS_SENT.fetch_add(1, Ordering::SeqCst);
+        }
+        "async_done" => {
+            AS_DONE.fetch_add(1, Ordering::SeqCst);
+        }
+        "async_exit" => {
+            AS_EXIT.fetch_add(1, Ordering::SeqCst);
+        }
         _ => {}
     })));
 }
+/// Lets the asynchronous writer thread work off every message sent so far (or notice that it has ended).
+/// The thread announces "done" at the end of each turn of its loop, also of the turn in which it ends.
+fn settle_async(exits_before: usize) {
+    let t0 = std::time::Instant::now();
+    while AS_DONE.load(Ordering::SeqCst) < AS_SENT.load(Ordering::SeqCst)
+        && AS_EXIT.load(Ordering::SeqCst) == exits_before
+        && t0.elapsed() < std::time::Duration::from_secs(3)
+    {
+        std::thread::sleep(std::time::Duration::from_micros(100));
+    }
+    if AS_EXIT.load(Ordering::SeqCst) != exits_before {
+        AS_DONE.store(AS_SENT.load(Ordering::SeqCst), Ordering::SeqCst);
+    }
+}
+
 /// Lets the background cleanup thread finish what it was asked to do (or notice that it has ended).
 fn settle_cleanup(exits_before: usize) {
     let t0 = std::time::Instant::now();
@@ -98,6 +125,7 @@ pub struct Cfg {
     pub spec_parts: (Vec<u8>, Option<Vec<u8>>, bool, Option<Vec<u8>>),
     pub append: bool,
     pub cap: Option<usize>,
+    pub asyn: Option<(usize, usize)>,
     pub rot: Option<(Criterion, Naming, Cleanup)>,
     pub utc: bool,
     pub link: bool,
@@ -155,7 +183,11 @@ pub fn parse_cfg(s: &str) -> Cfg {
     Cfg {
         spec_parts: (unhex(f[0]), opt_unhex(f[1]), f[2] == "1", opt_unhex(f[3])),
         append: f[4] == "1",
-        cap: if f[5] == "~" { None } else { Some(f[5].parse().unwrap()) },
+        cap: if f[5] == "~" || f[5].starts_with('a') { None } else { Some(f[5].parse().unwrap()) },
+        asyn: f[5].strip_prefix('a').map(|r| {
+            let p: Vec<&str> = r.split('.').collect();
+            (p[0].parse().unwrap(), p[1].parse().unwrap())
+        }),
         rot,
         utc: f[9] == "1",
         link: f[10] == "1",
@@ -176,9 +208,14 @@ pub fn builder(c: &Cfg, dir: &Path, link: &Path) -> FileLogWriterBuilder {
         .format(raw_format)
         .o_append(c.append)
         .cleanup_in_background_thread(c.bg)
-        .write_mode(match c.cap {
-            None => WriteMode::Direct,
-            Some(n) => WriteMode::BufferDontFlushWith(n),
+        .write_mode(match (c.cap, c.asyn) {
+            (_, Some((pool_capa, message_capa))) => WriteMode::AsyncWith {
+                pool_capa,
+                message_capa,
+                flush_interval: std::time::Duration::from_secs(0),
+            },
+            (None, None) => WriteMode::Direct,
+            (Some(n), None) => WriteMode::BufferDontFlushWith(n),
         });
     if let Some((crit, naming, cleanup)) = c.rot {
         b = b.rotate(crit, naming, cleanup);
@@ -268,6 +305,8 @@ pub fn run_case(id: &str, toks: &[&str]) -> String {
     install_sched();
     CL_DONE.store(CL_SENT.load(Ordering::SeqCst), Ordering::SeqCst);
     let mut exits = CL_EXIT.load(Ordering::SeqCst);
+    AS_DONE.store(AS_SENT.load(Ordering::SeqCst), Ordering::SeqCst);
+    let mut aexits = AS_EXIT.load(Ordering::SeqCst);
     for tok in ops {
         if tok.is_empty() {
             continue;
@@ -429,6 +468,8 @@ pub fn run_case(id: &str, toks: &[&str]) -> String {
             }
             other => panic!("unknown op {other}"),
         };
+        settle_async(aexits);
+        aexits = AS_EXIT.load(Ordering::SeqCst);
         settle_cleanup(exits);
         exits = CL_EXIT.load(Ordering::SeqCst);
         errs.extend(take_errors());
